@@ -725,6 +725,10 @@ pub struct ProxyCase {
     /// forwarded request, behind the 200 for CONNECT): more than any relay buffer holds at once
     #[serde(default)]
     pub burst: usize,
+    /// the burst is written together with the header block (one write, no pause): more body bytes are
+    /// readable the moment the relay behind the header starts (forwarded requests only)
+    #[serde(default)]
+    pub burst_glued: bool,
 }
 
 pub struct ProxyFam;
@@ -744,8 +748,8 @@ impl Family for ProxyFam {
             1 => 65_537usize..70_000,
         ];
         let burst = prop_oneof![12 => Just(0usize), 1 => Just(8192usize), 1 => Just(9000usize), 1 => Just(20_000usize), 1 => Just(70_000usize), 1 => Just(300_000usize)];
-        (c17::req_strategy(false), proptest::bool::weighted(0.15), proptest::collection::vec(any::<u16>(), 0..4), pad, proptest::option::weighted(0.4, 1u8..6), burst)
-            .prop_map(|(req, refuse, cuts, pad_to, term_cut, burst)| ProxyCase { req, refuse, cuts, pad_to, term_cut, burst })
+        (c17::req_strategy(false), proptest::bool::weighted(0.15), proptest::collection::vec(any::<u16>(), 0..4), pad, proptest::option::weighted(0.4, 1u8..6), burst, any::<bool>())
+            .prop_map(|(req, refuse, cuts, pad_to, term_cut, burst, burst_glued)| ProxyCase { req, refuse, cuts, pad_to, term_cut, burst, burst_glued })
             .boxed()
     }
     fn case_budget_s(&self) -> u64 {
@@ -775,6 +779,10 @@ impl Family for ProxyFam {
                 let too_big = b.header.len() > 65_536;
                 let mut bytes = b.header.clone().into_bytes();
                 bytes.extend_from_slice(&req.body);
+                let glued = case.burst_glued && case.burst > 0 && !b.is_connect && !case.refuse && !too_big;
+                if glued {
+                    bytes.extend(keyed(9, 0, 0, case.burst));
+                }
                 let mut s = TcpStream::connect(w.http).await.map_err(|e| infra(format!("connect to the HTTP listener: {e}")))?;
                 let _ = s.set_nodelay(true);
                 let mut pts: Vec<usize> = case.cuts.iter().map(|c| idx(*c, bytes.len() + 1)).collect();
@@ -858,7 +866,9 @@ impl Family for ProxyFam {
                     if case.burst > 0 {
                         // more body bytes in one burst; the origin's count must reach them (or stop growing)
                         let more = keyed(9, 0, 0, case.burst);
-                        s.write_all(&more).await.map_err(|e| Fail::plain("C17.body", format!("write of the body burst: {e}")))?;
+                        if !glued {
+                            s.write_all(&more).await.map_err(|e| Fail::plain("C17.body", format!("write of the body burst: {e}")))?;
+                        }
                         req.body.extend_from_slice(&more);
                         let mut last = (origin.total_received(), tokio::time::Instant::now());
                         let floor = req.body.len();
@@ -889,6 +899,7 @@ impl Family for ProxyFam {
         out.class_if(!case.req.body.is_empty(), "bytes-behind-header");
         out.class_if(case.pad_to > 65_536, "header>64KiB");
         out.class_if(case.burst >= 8192, "burst>=8KiB-behind-header");
+        out.class_if(case.burst >= 8192 && case.burst_glued, "burst-in-the-same-write-as-the-header");
         out.class_if(!case.cuts.is_empty() || case.term_cut.is_some(), "segmented");
         out.class_if(case.term_cut.is_some_and(|k| k <= 3), "cut-inside-terminator");
         out.class_if(case.pad_to > 0 && case.pad_to < 60_000, "header-size-near-KiB-multiple");
